@@ -202,8 +202,8 @@ func (m *Muxer) WriteData(d *MuxerData) (int, error) {
 
 		if writeAf {
 			pkt.AdaptationField = d.AdaptationField
-			// one byte for adaptation field length field
-			pktLen += 1 + int(calcPacketAdaptationFieldLength(d.AdaptationField))
+			// size of the adaptation field, its length byte included
+			pktLen += packetAdaptationFieldSize(d.AdaptationField)
 			writeAf = false
 		}
 
